@@ -294,6 +294,9 @@ pub fn run_c19(ctx: &Ctx) -> i32 {
         Some(d) => ctx.violation("c19:second-process-different-digest", json!({"this_process": mine, "second_process": d})),
         None => machinery_error("second process printed no digest"),
     }
+    // (d) replay validation of an explicit-state exploration: states reached through snapshot
+    // restore must equal the states reached by replaying their histories on one App
+    let (regcov, _) = crate::reg::explore_registry(ctx, ctx.tier.pick(3, 4));
     let h = [DOp::Store, DOp::Inst, DOp::ExecCaught, DOp::Block];
     let coverage = json!({
         "states": out.histories + out.pairs,
@@ -305,6 +308,7 @@ pub fn run_c19(ctx: &Ctx) -> i32 {
         "exhaustive": true,
         "histories": out.histories, "history_pairs": out.pairs, "interleaved_runs": out.interleaved_runs,
         "digest": mine, "digest_second_process": other,
+        "registry_exploration_replayed": {"states": regcov["states"], "replays": regcov["traces_validated_against_impl"], "mismatches": regcov["replay_mismatches (hidden state; reported by C19)"]},
         "alphabet": ALL.iter().map(|o| format!("{:?}", o)).collect::<Vec<_>>(),
         "caps_hit": [],
         "samples": [{"history": format!("{:?}", h), "transcript": solo(&h)}],
